@@ -239,7 +239,7 @@ func checkC07(c caseC07) (Outcome, error) {
 		}
 	}
 	// Command level: the same commands under a context with n CPUs and with 1 CPU.
-	if len(counts) > 0 {
+	if len(counts) > 0 && !sumOverflows(sr) {
 		n := counts[len(counts)-1]
 		var ref [3]string
 		for i, cpus := range []int{1, n} {
@@ -318,4 +318,20 @@ func classifyBoundary(text string, b int) (string, bool) {
 
 func TestC07(t *testing.T) {
 	Run(t, Prop[caseC07]{ID: "C07", Gen: genC07, Check: checkC07})
+}
+
+// sumOverflows is the exclusion predicate of known finding F3: the durations of the records sum
+// to 2^62 minutes or more, so that evaluating them panics by design.
+func sumOverflows(records []klog.Record) bool {
+	var sum uint64
+	for _, r := range records {
+		sum += absInt(r.ShouldTotal().InMinutes())
+		for _, e := range r.Entries() {
+			sum += absInt(e.Duration().InMinutes())
+		}
+		if sum >= 1<<62 {
+			return true
+		}
+	}
+	return false
 }
